@@ -198,6 +198,106 @@ func tableCases(emit func(Case)) int {
 	return n
 }
 
+// mixedTable: user u1 is allowed t1 and denied t2 (t3 random); u2 random; "adm" everything.
+func mixedTable(g *gen) []ACLRow {
+	rows := []ACLRow{{User: "u1", Target: "t1", Allow: true}, {User: "u1", Target: "t2", Allow: false},
+		{User: "u1", Target: "t3", Allow: g.r.Chance(1, 2)}}
+	for _, t := range []string{"t1", "t2", "t3"} {
+		rows = append(rows, ACLRow{User: "adm", Target: t, Allow: true})
+		rows = append(rows, ACLRow{User: "u2", Target: t, Allow: g.r.Chance(1, 3)})
+	}
+	return rows
+}
+
+func leafUpdate(g *gen, t string, idle int) Step {
+	g.ts += 1 + int64(g.r.Intn(2))
+	return Step{K: "update", IdleMS: idle, N: &Noti{TS: g.ts, Prefix: GPath{Target: t},
+		Upds: []Upd{{Path: GPath{Elems: g.leafPath()}, Val: 100 + g.ts}}}}
+}
+
+// idleDeniedCase: STREAM on "*" by a caller denied at least one target, on a
+// server with a small send timeout: a denied update (or delete) is dequeued,
+// the queue then stays quiet for about three times the timeout, then an update
+// for an authorised target must still arrive.
+func (g *gen) idleDeniedCase() Case {
+	const timeoutMS, gapMS = 100, 320
+	r := g.r
+	g.ow = [3]int{10, 0, 0}
+	targets := []string{"t1", "t2", "t3"}
+	c := Case{Targets: targets, HasACL: true, ACL: mixedTable(g), User: strp("u1"), TimeoutMS: timeoutMS}
+	ninit := 2 + r.Intn(4)
+	for i := 0; i < ninit; i++ {
+		c.Ops = append(c.Ops, g.cacheStep(targets, false, false))
+	}
+	c.Req = &Req{HasSub: true, Prefix: &GPath{Target: "*"}, Mode: 0, UpdatesOnly: r.Chance(1, 3),
+		Subs: []*GPath{{Elems: broadQueries[r.Intn(4)]}}}
+	c.Ops = append(c.Ops, Step{K: "sub"})
+	if r.Chance(1, 2) {
+		c.Ops = append(c.Ops, leafUpdate(g, "t1", 0))
+	}
+	// the denied item
+	if r.Chance(1, 4) {
+		g.ts++
+		c.Ops = append(c.Ops, Step{K: "update", N: &Noti{TS: g.ts, Prefix: GPath{Target: "t2"}, Dels: []GPath{{Elems: []Elem{el("*")}}}}})
+	} else {
+		c.Ops = append(c.Ops, leafUpdate(g, "t2", 0))
+	}
+	// quiet for longer than the send timeout, then authorised data
+	c.Ops = append(c.Ops, leafUpdate(g, "t1", gapMS))
+	if r.Chance(1, 2) {
+		c.Ops = append(c.Ops, leafUpdate(g, "t2", 0), leafUpdate(g, "t1", 0))
+	}
+	return c
+}
+
+// pairCase: two overlapping Subscribe calls on one server from the same peer
+// address with different identities.  The first caller (more privileged, or
+// at least different) holds a STREAM open; the second arrives while it is
+// open: another user, an unknown user, or a context without user (NewRPCACL
+// fails).  Each call is judged on its own, exactly like a lone call.
+func (g *gen) pairCase() Case {
+	r := g.r
+	g.ow = [3]int{10, 0, 0}
+	targets := []string{"t1", "t2", "t3"}
+	c := Case{Targets: targets, HasACL: !r.Chance(1, 20), ACL: mixedTable(g)}
+	switch r.Pick(6, 2, 2) {
+	case 0:
+		c.User = strp("adm")
+	case 1:
+		c.User = strp("u1")
+	case 2:
+		c.User = strp("u2")
+	}
+	switch r.Pick(4, 3, 1, 2) {
+	case 0:
+		c.User2 = strp("u1")
+	case 1:
+		c.User2 = strp("u2")
+	case 2:
+		c.User2 = strp("u3")
+	}
+	ninit := 3 + r.Intn(6)
+	for i := 0; i < ninit; i++ {
+		c.Ops = append(c.Ops, g.cacheStep(targets, false, false))
+	}
+	c.Req = g.aclRequest(targets, 0)
+	c.Req.HasSub = true
+	c.Req.Prefix = &GPath{Target: "*"}
+	mode2 := []int{1, 0, 2}[r.Pick(5, 3, 2)]
+	c.Req2 = g.aclRequest(targets, mode2)
+	c.Ops = append(c.Ops, Step{K: "sub"})
+	ne := r.Intn(3)
+	for i := 0; i < ne; i++ {
+		c.Ops = append(c.Ops, g.cacheStep(targets, false, false))
+	}
+	c.Ops = append(c.Ops, Step{K: "sub2"})
+	ne = 1 + r.Intn(5)
+	for i := 0; i < ne; i++ {
+		c.Ops = append(c.Ops, g.cacheStep(targets, false, true))
+	}
+	return c
+}
+
 func nontrivial(c *Case) bool {
 	// the ACL made a difference: the un-ACL'd run delivered updates and the run
 	// with the ACL delivered strictly fewer (filtered, or the RPC was rejected)
@@ -224,7 +324,7 @@ func nontrivial(c *Case) bool {
 func main() {
 	o := vh.ParseFlags()
 	quietLogs()
-	meta := vh.NewMeta("corpus cases; table: a fixed three-target script (snapshot, then update, subtree delete and whole-target removal per target) under all 8 allow/deny row sets x modes {STREAM,ONCE,POLL} x updates_only x target {*,t1,t2}; random: ACL table over 2 users x 3 targets (allow / deny / missing row), user u1/u2/unknown/absent, ACL installed or not, 2-9 initial notifications, one request (STREAM 58% / ONCE / POLL / unknown mode; target * or single, 1-3 subscription paths), STREAM: 2-10 (thorough 2-17) streamed cache operations (single/multi update, atomic, subtree delete, target removal) across allowed and denied targets, 1/5 of them bursts of 2-7 concurrent writes (one writer goroutine per target, no quiescence in between), in 1/8 of the cases the initial walk itself is overlapped by such a burst; POLL: 0-3 triggers with edits. Every case is run with the ACL and without. distinct = distinct inputs; non-trivial = ACL installed, the un-ACL'd run delivered at least one update and the run with the ACL strictly fewer (filtered or rejected)")
+	meta := vh.NewMeta("corpus cases; table: a fixed three-target script (snapshot, then update, subtree delete and whole-target removal per target) under all 8 allow/deny row sets x modes {STREAM,ONCE,POLL} x updates_only x target {*,t1,t2}; random: ACL table over 2 users x 3 targets (allow / deny / missing row), user u1/u2/unknown/absent, ACL installed or not, 2-9 initial notifications, one request (STREAM 58% / ONCE / POLL / unknown mode; target * or single, 1-3 subscription paths), STREAM: 2-10 (thorough 2-17) streamed cache operations (single/multi update, atomic, subtree delete, target removal) across allowed and denied targets, 1/5 of them bursts of 2-7 concurrent writes (one writer goroutine per target, no quiescence in between), in 1/8 of the cases the initial walk itself is overlapped by such a burst; POLL: 0-3 triggers with edits; idle-after-denied: 12 (thorough 100) STREAM scripts on * by a caller denied a target, server WithTimeout(100ms): a denied update/delete, 320 ms of quiet, then an authorised update; two-callers: 160 (thorough 3000) scripts with two overlapping Subscribe calls on one server from the same peer address (first: a STREAM on * by adm/u1/u2; second, while it is open: ONCE/STREAM/POLL by u1/u2/unknown user/no user), each call judged on its own. Every case is run with the ACL and without. distinct = distinct inputs; non-trivial = ACL installed, the un-ACL'd run delivered at least one update and the run with the ACL strictly fewer (filtered or rejected)")
 	e := &emitter{dir: o.Out, cf: newCaseFile(), meta: meta, limit: 175, require: "Subscribe.C07Check", twice: true, nontriv: nontrivial}
 
 	if o.Replay != "" {
@@ -265,13 +365,23 @@ func main() {
 	meta.Extra["table_cases"] = nt
 
 	r := vh.NewRand(o.Seed)
-	nrand := 1900
+	nrand := 1700
 	if o.Thorough() {
 		nrand = 30000
 	}
 	for i := 0; i < nrand; i++ {
 		g := newGen(r.Fork())
 		e.add("random", g.aclCase(o.Thorough()))
+	}
+	nidle, npair := 12, 160
+	if o.Thorough() {
+		nidle, npair = 100, 3000
+	}
+	for i := 0; i < nidle; i++ {
+		e.add("idle-after-denied", newGen(r.Fork()).idleDeniedCase())
+	}
+	for i := 0; i < npair; i++ {
+		e.add("two-callers", newGen(r.Fork()).pairCase())
 	}
 	e.flush()
 	if meta.Samples == nil {
